@@ -57,6 +57,14 @@ func (e *injected) Error() string { return e.msg }
 
 var ErrCustom error = &injected{"verif: injected source failure"}
 
+// ErrList is an error whose dynamic type is a slice (as go/scanner.ErrorList, or a joined list of device errors):
+// comparable only against nil, not usable as a map key.
+type ErrList []error
+
+func (e ErrList) Error() string { return fmt.Sprintf("verif: %d injected device errors", len(e)) }
+
+var ErrUnhashable error = ErrList{ErrCustom, io.ErrUnexpectedEOF}
+
 var _ = errors.New
 
 func sizeOf(code string, req int) int {
@@ -133,6 +141,8 @@ func MakeSource(spec SrcSpec, data []byte) *seam.Source {
 				return seam.Answer{N: 0, Err: io.ErrUnexpectedEOF}, true
 			case "custom":
 				return seam.Answer{N: 0, Err: ErrCustom}, true
+			case "errlist":
+				return seam.Answer{N: 0, Err: ErrUnhashable}, true
 			case "partial1":
 				return seam.Answer{N: 1, Err: ErrCustom}, true
 			case "partialhalf":
